@@ -68,6 +68,7 @@ TABLE = {
     "../seeded/C06-3/patch.diff": ("contracts.c06", "_is_simple_source_ref", "IREntityOutput"),
     "../seeded/C02-4/patch.diff": ("contracts.c02", "_inject_output_value_wire_color", "another gate"),
     "../seeded/C14-1/patch.diff": ("contracts.c14", "visit_FuncDecl", None),
+    "../seeded/C07-1/patch.diff": ("contracts.c07", "_materialize_connections", None),
     "../seeded/C01-4/patch.diff": ("contracts.c07", "_configure_decider", "operation = <"),
 }
 RUNNER = r'''
